@@ -3,6 +3,7 @@ package rules
 import (
 	"fmt"
 	"go/ast"
+	"go/constant"
 	"go/token"
 	"go/types"
 	"regexp"
@@ -256,6 +257,268 @@ func runC03(c *core.Ctx) core.Meta {
 		}
 	}
 
+	// ---------------- R03.6 float-to-integer conversions are range-guarded ----------------
+	st6 := c.Rule("R03.6", "a conversion of a floating-point operand value to an integer type in an instruction handler is reached only on paths on which that floating-point value was compared against an upper and a lower bound (or a 64-bit integer image of it, which on the supported Go ports is outside the 32-bit range for out-of-range inputs): Go leaves out-of-range and NaN conversions implementation-specific, while the ISA saturates; and no range test compares an already converted integer with a bound of its own type (such a clamp can never fire)", 4)
+	for _, a := range alus {
+		for _, fn := range c.SrcFuncs(a.pkg) {
+			if fn.Signature.Recv() == nil {
+				continue
+			}
+			isFloat := func(t types.Type) bool {
+				b, ok := t.Underlying().(*types.Basic)
+				return ok && b.Info()&types.IsFloat != 0
+			}
+			isInt := func(t types.Type) bool {
+				b, ok := t.Underlying().(*types.Basic)
+				return ok && b.Info()&types.IsInteger != 0
+			}
+			// floats that are the same runtime value: through float32<->float64 widening and phi-free copies
+			var rootF func(v ssa.Value) ssa.Value
+			rootF = func(v ssa.Value) ssa.Value {
+				if cv, ok := v.(*ssa.Convert); ok && isFloat(cv.X.Type()) && isFloat(cv.Type()) {
+					return rootF(cv.X)
+				}
+				return v
+			}
+			is64 := func(t types.Type) bool {
+				b, ok := t.Underlying().(*types.Basic)
+				return ok && (b.Kind() == types.Int64 || b.Kind() == types.Uint64)
+			}
+			// rootC: as rootF, and a 64-bit integer image of a float stands for the float in a range test
+			rootC := func(v ssa.Value) ssa.Value {
+				if cv, ok := v.(*ssa.Convert); ok && isFloat(cv.X.Type()) && is64(cv.Type()) {
+					return rootF(cv.X)
+				}
+				return rootF(v)
+			}
+			for _, b := range fn.Blocks {
+				for _, in := range b.Instrs {
+					cv, ok := in.(*ssa.Convert)
+					if !ok || !isFloat(cv.X.Type()) || !isInt(cv.Type()) {
+						continue
+					}
+					if _, isC := cv.X.(*ssa.Const); isC {
+						continue
+					}
+					src := rootF(cv.X)
+					// a 64-bit integer image that only feeds range tests is itself the test (idiom `uint64(f) > MaxUint32`)
+					if is64(cv.Type()) {
+						onlyCmp := cv.Referrers() != nil && len(*cv.Referrers()) > 0
+						for _, r := range *cv.Referrers() {
+							if bo, ok := r.(*ssa.BinOp); !ok || !(bo.Op == token.GTR || bo.Op == token.GEQ || bo.Op == token.LSS || bo.Op == token.LEQ) {
+								onlyCmp = false
+							}
+						}
+						if onlyCmp {
+							continue
+						}
+					}
+					// results of rounding helpers keep the range question open; values produced from an integer are in range
+					if c2, ok := src.(*ssa.Convert); ok && isInt(c2.X.Type()) {
+						continue
+					}
+					st6.Instances++
+					c.MarkAnalysed(fn)
+					upper, lower := false, false
+					for _, b2 := range fn.Blocks {
+						for _, i2 := range b2.Instrs {
+							bo, ok := i2.(*ssa.BinOp)
+							if !ok {
+								continue
+							}
+							var side int // +1: src OP bound, -1: bound OP src
+							switch {
+							case rootC(bo.X) == src:
+								side = 1
+							case rootC(bo.Y) == src:
+								side = -1
+							default:
+								continue
+							}
+							// the comparison must decide the branch that leads (or does not lead) to the conversion
+							decides := false
+							for _, ref := range *bo.Referrers() {
+								if iff, ok := ref.(*ssa.If); ok && iff.Block().Dominates(b) && iff.Block() != b {
+									decides = true
+								}
+								if iff, ok := ref.(*ssa.If); ok && iff.Block() == b {
+									_ = iff // same block: the test comes after the conversion
+								}
+							}
+							if !decides {
+								continue
+							}
+							switch bo.Op {
+							case token.GTR, token.GEQ:
+								if side > 0 {
+									upper = true
+								} else {
+									lower = true
+								}
+							case token.LSS, token.LEQ:
+								if side > 0 {
+									lower = true
+								} else {
+									upper = true
+								}
+							}
+						}
+					}
+					ok2 := upper && lower
+					st6.Ob(ok2)
+					st6.Sample("%s: %s(%s) upper-bound test: %v lower-bound test: %v", core.FuncName(fn), cv.Type(), cv.X.Type(), upper, lower)
+					if !ok2 {
+						c.ReportAt("R03.6", fn, in.Pos(), fmt.Sprintf("unguarded-f2i:%s", cv.Type()), fmt.Sprintf("a %s value is converted to %s without having been compared against both bounds of the integer range first (upper bound tested: %v, lower bound tested: %v): for out-of-range inputs and NaN Go's result is implementation-specific, the ISA prescribes saturation", cv.X.Type(), cv.Type(), upper, lower))
+					}
+				}
+			}
+			// clamps that cannot fire: int<W>(x) compared with a bound of int<W>
+			for _, b := range fn.Blocks {
+				for _, in := range b.Instrs {
+					bo, ok := in.(*ssa.BinOp)
+					if !ok {
+						continue
+					}
+					for _, pr := range [][2]ssa.Value{{bo.X, bo.Y}, {bo.Y, bo.X}} {
+						cv, ok := pr[0].(*ssa.Convert)
+						k, isC := pr[1].(*ssa.Const)
+						if !ok || !isC || !isFloat(cv.X.Type()) || !isInt(cv.Type()) || k.Value == nil {
+							continue
+						}
+						bt := cv.Type().Underlying().(*types.Basic)
+						lo, hi, okR := intRange(bt.Kind())
+						kv, exact := constant.Int64Val(constant.ToInt(k.Value))
+						if !okR || !exact {
+							continue
+						}
+						op := bo.Op
+						if pr[0] == bo.Y { // bound OP conv -> mirror
+							op = map[token.Token]token.Token{token.LSS: token.GTR, token.GTR: token.LSS, token.LEQ: token.GEQ, token.GEQ: token.LEQ}[op]
+						}
+						dead := (op == token.GTR && kv >= hi) || (op == token.LSS && kv <= lo) || (op == token.GEQ && kv > hi) || (op == token.LEQ && kv < lo)
+						if op == token.GTR || op == token.LSS || op == token.GEQ || op == token.LEQ {
+							st6.Instances++
+							st6.Ob(!dead)
+							if dead {
+								c.ReportAt("R03.6", fn, in.Pos(), fmt.Sprintf("dead-clamp:%s%s%d", cv.Type(), op, kv), fmt.Sprintf("%s(x) %s %d can never hold: the saturation branch behind it is dead, the test has to be made on the floating-point value before converting", cv.Type(), op, kv))
+							}
+						}
+					}
+				}
+			}
+		}
+	}
+
+	// ---------------- R03.7 no implicit zero result ----------------
+	st7 := c.Rule("R03.7", "the value a handler writes to its vector destination is assigned on every path: a result variable declared without a value and assigned only in the arms of an if / else-if chain (or switch) that has no final else (default) is the zero value whenever none of the conditions holds, although the ISA defines the result as a function of the operands for every input", 5)
+	for _, a := range alus {
+		pk := c.Pkg(a.pkg)
+		core.FuncDecls(pk, func(fd *ast.FuncDecl) {
+			if fd.Recv == nil || !strings.HasPrefix(fd.Name.Name, "run") {
+				return
+			}
+			// result variables: `var x T` (no initialiser) whose value reaches WriteOperand(inst.Dst, lane, x)
+			written := map[string]bool{}
+			ast.Inspect(fd.Body, func(n ast.Node) bool {
+				call, ok := n.(*ast.CallExpr)
+				if !ok || len(call.Args) != 3 || !strings.HasSuffix(exprString(call.Fun), ".WriteOperand") || !strings.HasSuffix(exprString(call.Args[0]), ".Dst") {
+					return true
+				}
+				ast.Inspect(call.Args[2], func(m ast.Node) bool {
+					if id, ok := m.(*ast.Ident); ok {
+						written[id.Name] = true
+					}
+					return true
+				})
+				return true
+			})
+			ast.Inspect(fd.Body, func(n ast.Node) bool {
+				blk, ok := n.(*ast.BlockStmt)
+				if !ok {
+					return true
+				}
+				for i, st := range blk.List {
+					ds, ok := st.(*ast.DeclStmt)
+					if !ok {
+						continue
+					}
+					gd, ok := ds.Decl.(*ast.GenDecl)
+					if !ok || gd.Tok != token.VAR {
+						continue
+					}
+					for _, sp := range gd.Specs {
+						vs := sp.(*ast.ValueSpec)
+						if len(vs.Values) != 0 {
+							continue
+						}
+						for _, nm := range vs.Names {
+							if !written[nm.Name] {
+								continue
+							}
+							// every later statement of this block that assigns nm
+							var assigners []ast.Stmt
+							for _, later := range blk.List[i+1:] {
+								assigns := false
+								ast.Inspect(later, func(m ast.Node) bool {
+									if as, ok := m.(*ast.AssignStmt); ok {
+										for _, l := range as.Lhs {
+											if id, ok := l.(*ast.Ident); ok && id.Name == nm.Name {
+												assigns = true
+											}
+										}
+									}
+									return true
+								})
+								if assigns {
+									assigners = append(assigners, later)
+								}
+							}
+							if len(assigners) != 1 {
+								continue // assigned unconditionally somewhere, or built up in steps
+							}
+							open := ""
+							switch t := assigners[0].(type) {
+							case *ast.IfStmt:
+								cur := t
+								for {
+									if cur.Else == nil {
+										open = "the if / else-if chain has no final else"
+										break
+									}
+									nx, ok := cur.Else.(*ast.IfStmt)
+									if !ok {
+										break
+									}
+									cur = nx
+								}
+							case *ast.SwitchStmt:
+								hasDef := false
+								for _, cc := range t.Body.List {
+									if len(cc.(*ast.CaseClause).List) == 0 {
+										hasDef = true
+									}
+								}
+								if !hasDef {
+									open = "the switch has no default"
+								}
+							default:
+								continue
+							}
+							st7.Instances++
+							st7.Ob(open == "")
+							st7.Sample("%s.%s: result variable %s assigned by a closed chain: %v", a.typ, fd.Name.Name, nm.Name, open == "")
+							if open != "" {
+								c.Report(core.Finding{Rule: "R03.7", Pkg: a.pkg, Func: a.typ + "." + fd.Name.Name, Detail: "implicit-zero:" + nm.Name, Pos: c.Position(assigners[0].Pos()),
+									Msg: fmt.Sprintf("%s is declared without a value and assigned only inside a chain of conditions (%s); for every input that matches none of them the destination register receives 0", nm.Name, open)})
+							}
+						}
+					}
+				}
+				return true
+			})
+		})
+	}
+
 	// ---------------- R03.2 shift-amount masking ----------------
 	st2 := c.Rule("R03.2", "in handlers of shift instructions (tied to their names through decode table -> dispatch switch -> callee) every data-dependent shift amount is confined to [0, W-1] (W from the instruction name) by a mask or modulus before it reaches the Go shift, because Go saturates where the ISA uses the low 4/5/6 bits", 15)
 	seenH := map[string]bool{}
@@ -469,4 +732,22 @@ func runC03(c *core.Ctx) core.Meta {
 		Explanation: "ISA rules that are uniform across opcodes and visible in the code shape, decided for both ALUs: dispatch integrity of every opcode switch (one handler per case, panicking default), ALL-OR-NONE for condition-code writes in every handler, shift-amount intervals in every handler of a shift instruction (handlers tied to instruction names through decode table → dispatch switch → callee), and destination-only operand writes / PC / EXEC writers.",
 		NotDecided:  "arithmetic, rounding, saturation, carries and comparison semantics of individual opcodes (bit-exact conformance needs an executable ISA transcription, a different technique)",
 		Assumptions: commonAssumptions}
+}
+
+func intRange(k types.BasicKind) (lo, hi int64, ok bool) {
+	switch k {
+	case types.Int8:
+		return -1 << 7, 1<<7 - 1, true
+	case types.Int16:
+		return -1 << 15, 1<<15 - 1, true
+	case types.Int32:
+		return -1 << 31, 1<<31 - 1, true
+	case types.Uint8:
+		return 0, 1<<8 - 1, true
+	case types.Uint16:
+		return 0, 1<<16 - 1, true
+	case types.Uint32:
+		return 0, 1<<32 - 1, true
+	}
+	return 0, 0, false
 }
